@@ -8,8 +8,12 @@ import Driver.StreamSys
 import Driver.Builder
 import Driver.Ack
 import Driver.H3Parser
+import Driver.RecvPath
+import Driver.Prot
 
 structure World where
+  prot : Drv.ProtW := {}
+  rx : Drv.RxW := {}
   h3p : Drv.H3W := {}
   ack : Drv.AckW := {}
   bld : Drv.BldW := {}
@@ -57,6 +61,12 @@ def step (w : World) (line : String) : World × String :=
     else if t.startsWith "h3." ∨ t.startsWith "h0." ∨ t.startsWith "closef." then
       let (s, o) := Drv.stepH3 w.h3p toks
       ({ w with h3p := s }, o)
+    else if t.startsWith "rx." then
+      let (s, o) := Drv.stepRecvPath w.rx toks
+      ({ w with rx := s }, o)
+    else if t.startsWith "prot." then
+      let (s, o) := Drv.stepProt w.prot toks
+      ({ w with prot := s }, o)
     else (w, "bad-op")
 
 partial def loop (hin hout : IO.FS.Stream) (w : World) : IO Unit := do
